@@ -276,15 +276,20 @@ class ADP_EAMTabulation(SetFL_EAMTabulation):
     """Write the tabulation to the file object `fp`.
 
     :param fp: File object into which data should be written."""
+    # Build complete table before writing so that a failure during tabulation
+    # does not leave a partial table in fp.
+    from io import StringIO
+    sbuild = StringIO()
     writeSetFL(
       self.nrho, self.drho, 
       self.nr, self.dr,
       self.eam_potentials,
       self.potentials,
-      out = fp)
+      out = sbuild)
 
-    self._write_dipole(fp)
-    self._write_quadrupole(fp)
+    self._write_dipole(sbuild)
+    self._write_quadrupole(sbuild)
+    fp.write(sbuild.getvalue())
 
 
   def _write_dipole(self, fp):
